@@ -1,7 +1,7 @@
 (* C13 - renumber-tests numbers tests 1..n, touches nothing else, is idempotent.
    Statements only; proofs in Proofs/RenumberProofs.v. *)
 From Coq Require Import String.
-From Verif Require Import Base.Str Base.Lines Model.Renumber Proofs.RenumberProofs.
+From Verif Require Import Base.Str Base.Lines Model.Renumber Proofs.RenumberProofs Proofs.RenumberIdemProofs.
 From Verif Require Tie.Pin_TestIdRegex_src Tie.Pin_TestTitleRegex_src Tie.Pin_RuleIdTestFileNameRegex_src
   Tie.Pin_lits_util_renumber_tests_TestRenumberer_processYaml
   Tie.Pin_lits_util_renumber_tests_TestRenumberer_formatEndOfFile
@@ -76,3 +76,21 @@ Theorem C13_one_final_newline : forall limit rule contents,
   exists body c, process_yaml limit rule contents = body ++ [c; 10] /\ c <> 10.
 Proof. exact process_yaml_final_newline. Qed.
 Print Assumptions C13_one_final_newline.
+
+(* RENUMBERING TWICE IS RENUMBERING ONCE, on the lines of a file: for every list of lines of
+   the property's quantifier ([plain_line]: a test_id line, a test_title line - the key preceded
+   by text without the letter t, i.e. blanks, tabs, list dashes - or a line with neither key),
+   every rule id without the letter t and every starting state of the counters, rewriting the
+   rewritten lines gives the same lines. *)
+Theorem C13_renumbering_twice_is_once : forall rule ls st,
+  ~ In 116 rule -> Forall plain_line ls ->
+  rewrite_lines rule st (rewrite_lines rule st ls) = rewrite_lines rule st ls.
+Proof. intros rule ls st Hr HF. now apply rewrite_lines_idempotent. Qed.
+Print Assumptions C13_renumbering_twice_is_once.
+
+Theorem C13_idempotence_example :
+  let ls := [$"- test_title: old"; $"  desc: ""t"""; $"  - test_id: 7"; $"    test_id:  x"; $""] in
+  Forall plain_line ls /\
+  rewrite_lines $"942100" counters0 ls = [$"- test_title: 942100-1"; $"  desc: ""t"""; $"  - test_id: 1"; $"    test_id: 2"; $""].
+Proof. exact idempotent_example. Qed.
+Print Assumptions C13_idempotence_example.
